@@ -352,6 +352,11 @@ func journalEvery(c *Check) int64 {
 }
 
 func workers(c *Check) int {
+	if s := os.Getenv("VERIF_WORKERS"); s != "" {
+		if v, err := strconv.Atoi(s); err == nil && v > 0 {
+			return v
+		}
+	}
 	w := c.Workers
 	if w <= 0 {
 		w = runtime.NumCPU()
